@@ -46,6 +46,9 @@ macro_rules! registry {
 registry! {
     "C01" => c01,
     "C05" => c05,
+    "C06" => c06,
+    "C11" => c11,
+    "C15" => c15,
 }
 
 fn seed_from_env() -> u64 {
